@@ -155,4 +155,35 @@ def run(ctx: Ctx, rep: Report, tier: str):
     from rules.C14 import w4
     w4(ctx, rep, "C04.R3b")
     c.r4_r5()
+    from rules.common import kids_sync_path_rebased, refresh_marks_exists
+    rep.rule("C04.R4b", "a renamed folder re-bases each child's last-synced path from the child's own old last-synced path, so a child's own pending rename stays pending", 1)
+    kids_sync_path_rebased(ctx, rep, "C04.R4b")
+    from rules.common import alias
+    from rules.C03 import C03
+    alias(rep, ["C03.R1", "C03.R2"], "C04.R4c", "after a rename / folder creation is mirrored, both sides' last-synced paths are recorded (C03.R1): renaming the object "
+          "back to its old name is still recognised as a rename and ends with the object only at its new path", 4, lambda: C03(ctx, rep).r1_r2(),
+          keep=lambda i: i.rule == "C03.R1" and i.key.split("|")[0] in ("handle_rename", "unsafe_mkdir_synced"))
+    rep.rule("C04.R7", "a folder delete that finds children re-examines the children on the side where the delete happened: the kids listed for "
+             "(path, side) are force-synced on that same side", 1)
+    hd = ctx.prog.func("SyncManager._handle_dir_delete_not_empty")
+    n7 = 0
+    for lp in [n for n in ctx.own_nodes(hd) if isinstance(n, ast.For)]:
+        m = pat.match("self.state.get_kids($P, $S)", lp.iter)
+        if m is None:
+            continue
+        kid = lp.target.elts[0].id if isinstance(lp.target, ast.Tuple) and isinstance(lp.target.elts[0], ast.Name) else (lp.target.id if isinstance(lp.target, ast.Name) else None)
+        for c_ in [x for b in lp.body for x in ast.walk(b) if isinstance(x, ast.Call) and isinstance(x.func, ast.Attribute) and x.func.attr == "set_force_sync"]:
+            m2 = pat.match("%s[$X].set_force_sync()" % kid, c_)
+            if m2 is None:
+                continue
+            n7 += 1
+            pm = pat.match("$E[$PS].path", m["P"])
+            okk = pat.same(m2["X"], m["S"]) and (pm is None or pat.same(pm["PS"], m["S"]))
+            rep.check("C04.R7", "_handle_dir_delete_not_empty|kids", ctx.line(hd, c_), okk, "kids of side %s re-checked on side %s" % (ast.unparse(m["S"]), ast.unparse(m2["X"])),
+                      "the children found under the deleted folder on side `%s` are marked for re-check on side `%s`: their state on the deleting side is never refreshed, the "
+                      "folder delete gives up and the folder is re-created / the delete is lost" % (ast.unparse(m["S"]), ast.unparse(m2["X"])))
+    if n7 == 0:
+        raise AnalysisError("_handle_dir_delete_not_empty: the force-sync of the children was not found")
+    rep.rule("C04.R3c", "a refresh that finds the object marks it EXISTS on every path (C14.W8): a stale tombstone does not delete the peer of a live object", 1)
+    refresh_marks_exists(ctx, rep, "C04.R3c")
     c.r6()
